@@ -44,9 +44,10 @@ class Env:
         self.fns = mir.parse_mir(p.stdout)
         srcs = glob.glob("/repo/fe2o3-amqp/src/**/*.rs", recursive=True) + glob.glob("/repo/fe2o3-amqp-types/src/**/*.rs", recursive=True)
         self.structs, self.enums = mir.parse_layouts(srcs)
+        self.consts = mir.parse_consts(srcs)
 
     def executor(self, inline=None, max_visits=3):
-        return mir.Executor(self.fns, self.structs, self.enums, inline=inline, max_visits=max_visits)
+        return mir.Executor(self.fns, self.structs, self.enums, inline=inline, max_visits=max_visits, consts=self.consts)
 
     def fn(self, pattern, sig=None):
         return mir.find_fn(self.fns, pattern, sig)
